@@ -27,7 +27,7 @@ RULE = (
     "nested scope whose suspended disposable enter is cancelled; "
     "non-trivial = some child runs in another task than its parent"
 )
-RULE += ' Rounds 10-11: 4-node trees with two task-placed nodes; stars with 4-9 (12) children and chains of 5-8 (10) scopes; nested scopes given an own trace id / logger. Round 15: a clean-up scope opened in the cancellation handler of a cancelled task-placed scope.'
+RULE += ' Rounds 10-11: 4-node trees with two task-placed nodes; stars with 4-9 (12) children and chains of 5-8 (10) scopes; nested scopes given an own trace id / logger. Round 16: all trees with <= 3 nodes with every nested / every scope left with an exception. Round 15: a clean-up scope opened in the cancellation handler of a cancelled task-placed scope.'
 ASSUMPTIONS = [
     "a scope nested under X counts for X's completion if it was created before X's callback fired "
     "(not if it was created after X was left, within the run of the loop in which X completed: the "
@@ -118,6 +118,15 @@ def programs(tier: str):
             "cb": "sync",
             "cancel_body": 1,
         }
+    # scopes LEFT WITH AN EXCEPTION (every nested scope, or every scope): a failed scope still counts
+    # for its ancestors, and scopes opened later by tasks that inherited its context still count
+    for which in ("nested", "all"):
+        for n in (2, 3):
+            for shape in tree_shapes(n):
+                for kinds in itertools.product(("a", "s"), repeat=n):
+                    for places in itertools.product(("inline", "spawn", "create"), repeat=n - 1):
+                        labels = [(kinds[0], "root")] + [(kinds[i], places[i - 1]) for i in range(1, n)]
+                        yield {"tree": _label(shape, labels), "cb": "sync", "exit_exc": which}
     # clean-up scopes: the cancelled body of a task-placed scope opens a further scope in its
     # cancellation handler (the task still carries the cancellation request) before it is left
     for place in ("spawn", "create"):
@@ -362,6 +371,11 @@ def execute(program, ch: Chooser) -> Result:  # noqa: C901, PLR0915
                 entering[f"n{nid}"] = False
                 await node(t["cleanup"])
         entering[f"n{nid}"] = False
+        if program.get("exit_exc") and exc_info[0] is None and (nid != 0 or program["exit_exc"] == "all"):
+            # the scope is left the way a failing body leaves it (the error is handled right
+            # outside the block by the code that opened it)
+            body_error = ValueError(f"body of n{nid} failed")
+            exc_info = (ValueError, body_error, None)
         events.append(("exit-start", nid))
         try:
             if t["kind"] == "a":
